@@ -113,6 +113,9 @@ def ob_validate_translator():
             if sp != rf:
                 raise Inconclusive("spec model and python reference disagree on %r" % (msg[:8],))
             if got != rf:
+                nat = native("sm3", msg.hex()) or ""
+                if nat == "ok:" + got.hex():
+                    raise Violation("sm3_hash(%s..) = %s natively and in the encoding, GB/T 32905 gives %s" % (msg[:8].hex(), got.hex(), rf.hex()), {"msg": msg.hex()})
                 # the executor and the reference differ: either the code is wrong on this vector (then some
                 # solver obligation reports it) or the translator is; never a silent pass
                 raise Inconclusive("MIR execution differs from the reference on %r: mir=%s ref=%s" % (msg[:8], got.hex(), rf.hex()))
@@ -147,6 +150,7 @@ THOROUGH_LENS = list(range(0, 513)) + [1000, 4096]
 
 
 def run(tier, seed, t0):
+    build_replay()
     jobs = [ob_cf_equiv, ob_validate_translator, ob_purity]
     lens = QUICK_LENS if tier == "quick" else THOROUGH_LENS
     for L in lens:
